@@ -371,6 +371,9 @@ def load_known():
 
 def check_property(prop, tier, seed, jobs=None, only=None):
     t0 = time.time()
+    if only is None:     # replay files belong to the run that wrote them
+        import shutil
+        shutil.rmtree(os.path.join(OUT, "replays", prop), ignore_errors=True)
     pos, mod = _load(prop)
     tasks = []
     for i, po in enumerate(pos):
@@ -452,7 +455,10 @@ def merge_parts(parts):
 
 def summarise(prop, tier, seed, results, wall, only=None):
     known = load_known()
-    kf = {(k["property"], k["po"], k["clause"]): k for k in known.get("findings", [])}
+    kf = {}
+    for k in known.get("findings", []):
+        for cl in ([k["clause"]] if "clause" in k else list(k.get("clauses", []))):
+            kf[(k["property"], k["po"], cl)] = dict(k, clause=cl)
     violations, known_hits, undecided, crashes = [], [], [], []
     n_obl = n_dis = n_shape = n_bounded = 0
     samples = []
@@ -533,7 +539,7 @@ def summarise(prop, tier, seed, results, wall, only=None):
     # report
     seen_known = set()
     for k, r, f in known_hits:
-        key = (k["property"], k["po"], k["clause"])
+        key = (k["property"], k["po"], k["what"])
         if key in seen_known:
             continue
         seen_known.add(key)
